@@ -407,7 +407,11 @@ pub fn failing_calls_before(rng: &mut crate::rng::Rng, sample: Option<&[u8]>) {
                 let at = (h.root_offset + h.root_length - 2) as usize;
                 if at < bad.len() {
                     bad[at] ^= 0x7f;
-                    let _ = guard(|| PMTiles::from_bytes(bad).map(|p| p.num_tiles()));
+                    // (a flipped byte can turn a run length into hundreds of millions of tiles, which the library expands by design:
+                    // only damaged copies whose directories stay within the expansion budget of C08 are opened)
+                    if !crate::hostile::estimate(&bad).capped {
+                        let _ = guard(|| PMTiles::from_bytes(bad).map(|p| p.num_tiles()));
+                    }
                 }
                 let (a, e) = (h.root_offset as usize, (h.root_offset + h.root_length) as usize);
                 if e <= b.len() && (1..=4).contains(&h.internal_compression) {
